@@ -33,11 +33,11 @@ CLAIMED = {
    note='As C04. With catch_filter_exception, examples dropped by the catch count as consumed once finished.',
    tech='TLA+ specs of the thread protocols, TLC invariant checking + refinement to a counting abstraction with an Apalache inductive-invariant proof + controlled-scheduler trace validation'),
  'C14': dict(engine='pipeline', cat='model_checking', ref='DESIGN.md section 6 C14',
-   text='Staged fault family of Pipeline.tla: source . failing map (EVERY subset of failing positions x 5 exception classes incl. a subclass of FilterException and a BaseException) . middle stage . every catch form (catch(E) for single type / tuple / Exception / unrelated type, thread and pool prefetch with catch_filter_exception) or an eager operation that must propagate . consumer on top (items, map, batch). TLC checks the implementation-shaped model against the reference (which removes exactly the examples whose evaluation raises a caught class and surfaces any other failure at its position with its class) for all programs; they are executed on the real library (quick: seeded sample + everything the model flags; thorough: all) and TLC judges the recorded value AND key iteration.',
+   text='Staged fault family of Pipeline.tla: source . failing map (EVERY subset of failing positions x 5 exception classes incl. a subclass of FilterException and a BaseException) . middle stage . every catch form (catch(E) for single type / tuple / Exception / unrelated type, thread and pool prefetch with catch_filter_exception) or an eager operation that must propagate . consumer on top (items, map, batch). TLC checks the implementation-shaped model against the reference (which removes exactly the examples whose evaluation raises a caught class and surfaces any other failure at its position with its class) for all programs; they are executed on the real library (quick: seeded sample + everything the model flags; thorough: all) and TLC judges the recorded value AND key iteration. Exception classes include a user IndexError subclass (which the library itself catches in BatchDataset) and catch(LookupError).',
    note='As C01. catch() over an input whose examples cannot be fetched individually (non-indexable) is outside the quantifier ("indexable upstream pipelines").',
    tech='TLA+ state machine over fault-injected API programs, TLC BFS + trace validation of real observations'),
  'C15': dict(engine='shards', cat='model_checking', ref='DESIGN.md section 6 C15',
-   text='Shards.tla: TLC enumerates EVERY (n, k) with 0 <= n <= 40 (thorough 160) and -1 <= k <= n + 2, checks the partition properties on the model of np.array_split; the real split / shard is run for every pair and every shard index on list- and dict-backed datasets and TLC judges the recorded shards: concatenation reproduces the dataset (disjoint, cover, order), sizes differ by at most one, shard(k, i) = split(k)[i] incl. keys, invalid counts rejected. Exhaustive inside N.',
+   text='Shards.tla: TLC enumerates EVERY (n, k) with 0 <= n <= 40 (thorough 160) and -1 <= k <= n + 2, checks the partition properties on the model of np.array_split; the real split / shard is run for every pair and every shard index on list- and dict-backed datasets and TLC judges the recorded shards: concatenation reproduces the dataset (disjoint, cover, order), sizes differ by at most one, shard(k, i) = split(k)[i] incl. keys, invalid counts rejected. Exhaustive inside N. Every shard index incl. negative and out-of-range ones; split / shard asked again on the same object after the caller modified an earlier result.',
    note='Trusted: TLC. Bounded by N.',
    tech='TLA+ model of array_split, TLC exhaustive enumeration + trace validation of the real shards'),
  'C17': dict(engine='bucket', cat='model_checking', ref='DESIGN.md section 6 C17',
@@ -45,7 +45,7 @@ CLAIMED = {
    note='Trusted: TLC. Discard instants with drop_incomplete=True are not observable from outside (earliest possible discard assumed; the exact versions are model invariants). Float rates are judged with 1e-4 slack.',
    tech='TLA+ state machine of the bucketing loop, TLC BFS + replay + trace validation'),
  'C18': dict(engine='pipeline', cat='model_checking', ref='DESIGN.md section 6 C18',
-   text='Family sortgroup of Pipeline.tla: dict payloads (incomparable: comparing two examples raises TypeError in the real code), ties, empty and singleton datasets; every sort (keyless / id / neg / mod2 / const x reverse) and groupby (mod2 / const / id x group id) on top of every depth<=1 (thorough 2) pipeline plus random deeper ones. TLC judges the recorded real observation: permutation of the input, sort keys monotone (reverse included), example keys in order for keyless sort, keys attached to their examples, a group = the examples with its id in original order.',
+   text='Family sortgroup of Pipeline.tla: dict payloads (incomparable: comparing two examples raises TypeError in the real code), ties, empty and singleton datasets; every sort (keyless / id / neg / mod2 / const x reverse) and groupby (mod2 / const / id x group id) on top of every depth<=1 (thorough 2) pipeline plus random deeper ones. TLC judges the recorded real observation: permutation of the input, sort keys monotone (reverse included), example keys in order for keyless sort, keys attached to their examples, a group = the examples with its id in original order. Custom sort_fn with another total order than sorted().',
    note='As C01. The content of the input is taken from the reference of the input program (tied to the code by C01).',
    tech='TLA+ state machine over API programs, TLC BFS + trace validation of real observations'),
  'C16': dict(engine='pipeline', cat='model_checking', ref='DESIGN.md section 6 C16',
@@ -53,15 +53,15 @@ CLAIMED = {
    note='As C01. The comparison level of an instance is the strongest at which the model satisfies the law (capabilities of the two sides may legitimately differ, e.g. keys() with duplicate keys).',
    tech='TLA+ law operators over TLC-enumerated programs, trace validation of both sides'),
  'C08': dict(engine='demand', cat='model_checking', ref='DESIGN.md section 6 C08',
-   text='Demand.tla is the demand-propagation machine of the statement: a request for output positions of a stage (first k results of an iteration / the single result ds[i]) is translated stage by stage (map, lazy and eager filter, slice, batch, unbatch, items, copy, cache, catch, concatenate, thread prefetch) into the exact sequence of inputs every user function must be applied to, with read-ahead only where the statement allows it (prefetch buffer, running into the end). TLC enumerates all chain programs up to depth 3 over sources of up to 3 examples; each is executed on the real library with logging user functions - construction, a fresh iterator for EVERY prefix length k in 0..len+1, ds[i] for every i - and TLC judges the recorded call logs: nothing at construction of lazy stages, exactly the needed examples, once, in request order.',
+   text='Demand.tla is the demand-propagation machine of the statement: a request for output positions of a stage (first k results of an iteration / the single result ds[i]) is translated stage by stage (map, lazy and eager filter, slice, batch, unbatch, items, copy, cache, catch, concatenate, thread prefetch) into the exact sequence of inputs every user function must be applied to, with read-ahead only where the statement allows it (prefetch buffer, running into the end). TLC enumerates all chain programs up to depth 3 over sources of up to 3 examples; each is executed on the real library with logging user functions - construction, a fresh iterator for EVERY prefix length k in 0..len+1, ds[i] for every i - and TLC judges the recorded call logs: nothing at construction of lazy stages, exactly the needed examples, once, in request order. Key lookups ds[key], also through lazy filters; worker-pool prefetch stages.',
    note='Property-level specification (not implementation-shaped): conformance is the exact match of call sequences. Trusted: TLC, the logging twins. Key lookup ds[key] is covered through integer access of the same position only.',
    tech='TLA+ demand-propagation machine, TLC enumeration + trace validation of real call logs'),
  'C11': dict(engine='diskcache', cat='model_checking', ref='DESIGN.md section 6 C11',
-   text='DiskCache.tla: state machine over LIFECYCLES on one directory (absent / empty / entries / foreign files), wrappers with reuse and clear and a reference count shared by copies, upstream call counters: Open(reuse, clear), Access by int / negative / numpy index, Copy, Release (last release = __del__: close, rmtree iff clear), KillWriter (process death between two stores), Reopen. TLC enumerates all lifecycles (quick: 2 examples, <= 5 actions) and checks the design; every lifecycle is replayed on REAL directories (Release = drop the reference + gc.collect(); KillWriter = a forked child SIGKILLed between two stores, every position) and TLC judges the recorded observations: ValuesExact, ReuseServesStored, NeverMisplaced, RefuseNonEmpty, ClearedIffAsked, CopiesKeepAlive.',
+   text='DiskCache.tla: state machine over LIFECYCLES on one directory (absent / empty / entries / foreign files), wrappers with reuse and clear and a reference count shared by copies, upstream call counters: Open(reuse, clear), Access by int / negative / numpy index, Copy, Release (last release = __del__: close, rmtree iff clear), KillWriter (process death between two stores), Reopen. TLC enumerates all lifecycles (quick: 2 examples, <= 5 actions) and checks the design; every lifecycle is replayed on REAL directories (Release = drop the reference + gc.collect(); KillWriter = a forked child SIGKILLed between two stores, every position) and TLC judges the recorded observations: ValuesExact, ReuseServesStored, NeverMisplaced, RefuseNonEmpty, ClearedIffAsked, CopiesKeepAlive. Accesses by position of either sign, numpy integers and by key.',
    note='One store is atomic in the spec; kills at random instants inside a store (thorough) are sampling below that atomicity and reported as such. Two independent datasets opened on one directory are outside "the last dataset sharing the cache" (sharing = copy()).',
    tech='TLA+ lifecycle state machine, TLC BFS + replay with real directories and SIGKILLed writers + trace validation'),
  'C12': dict(engine='random', cat='model_checking', ref='DESIGN.md section 6 C12',
-   text='Random.tla: every rng call is nondeterminism resolved by TLC (shuffle: any permutation, choice(k): any value); ReShuffleDataset with its ONE shared in-place permutation array and iterators holding positions into it, LocalShuffleDataset buffer machine, one-time shuffle, tile(shuffle=True), random_choice. TLC explores all interleavings of the next() calls of 2 (thorough 3) iterators over one dataset object for n <= 3 (4), all rng answers; every behaviour is replayed on the real classes with a scripted rng and the same interleaving, plus real numpy generators and self-zip / self-intersperse compositions; TLC judges IsPermutation, NoRepeatSoFar, Displacement, ChoiceWithoutReplacement on the real outputs.',
+   text='Random.tla: every rng call is nondeterminism resolved by TLC (shuffle: any permutation, choice(k): any value); ReShuffleDataset with its ONE shared in-place permutation array and iterators holding positions into it, LocalShuffleDataset buffer machine, one-time shuffle, tile(shuffle=True), random_choice. TLC explores all interleavings of the next() calls of 2 (thorough 3) iterators over one dataset object for n <= 3 (4), all rng answers; every behaviour is replayed on the real classes with a scripted rng and the same interleaving, plus real numpy generators and self-zip / self-intersperse compositions; TLC judges IsPermutation, NoRepeatSoFar, Displacement, ChoiceWithoutReplacement on the real outputs. Large sizes (257 .. 70000 examples, nine compositions, real generators, RandomBigTrace.tla) and catch() over a per-epoch reshuffle (every epoch drops exactly the failing examples).',
    note='A generator body runs atomically between two yields (single-threaded CPython). S7 (interleaved iterators over one ReShuffleDataset) is a recorded finding, classified by the verdict exactly when another iterator reshuffled while the violating one was in flight.',
    tech='TLA+ model of the shuffle stages with rng as nondeterminism, TLC BFS over interleavings + scripted-rng replay + trace validation'),
  'C13': dict(engine='random', cat='model_checking', ref='DESIGN.md section 6 C13',
@@ -69,15 +69,15 @@ CLAIMED = {
    note='The design-level verdicts use one fixed stream function. S19 (copy un-shares a reshuffle object used twice) is a recorded finding.',
    tech='TLA+ model of generator streams and copy(freeze), TLC enumeration + replay with real numpy generators + trace validation'),
  'C20': dict(engine='demand', cat='model_checking', ref='DESIGN.md section 6 C20',
-   text='Profile.tla (on top of Demand.tla): for every chain program TLC enumerates, the number of examples fetched from stage s is the size of the request the demand-propagation machine sends to stage s (the machine that C08 validates against real call logs). Every program is observed plain and under ProfilingDataset on the real library - iteration twice, len, ds[i] for all i incl. errors -, the original object graph is compared before / after wrapping, and the hit counters of every wrapper are read after a full iteration, after taking k results for every k, and after ds[i] for every i; TLC judges transparency, untouched, and hits = fetches (failed fetches apart).',
+   text='Profile.tla (on top of Demand.tla): for every chain program TLC enumerates, the number of examples fetched from stage s is the size of the request the demand-propagation machine sends to stage s (the machine that C08 validates against real call logs). Every program is observed plain and under ProfilingDataset on the real library - iteration twice, len, ds[i] for all i incl. errors -, the original object graph is compared before / after wrapping, and the hit counters of every wrapper are read after a full iteration, after taking k results for every k, and after ds[i] for every i; TLC judges transparency, untouched, and hits = fetches (failed fetches apart). Hit counts are read while the iterator is still open (pipelines without background threads) and after closing.',
    note='Chain programs incl. single-thread prefetch; chains with two batch stages are judged for transparency only (index-mode batches over-fetch by probing). Pool prefetch behind the wrapper is not in the family.',
    tech='TLA+ demand machine as fetch-count oracle, TLC enumeration + trace validation'),
  'C19': dict(engine='database', cat='model_checking', ref='DESIGN.md section 6 C19',
-   text='Database.tla transcribes _merge_database_dicts, get_examples (alias union, overlap assert, augmentation on copies), _get_dataset (list recursion, weak memo), the alias property and JsonDatabase pickling, next to a statement-level reference; state machine over request histories (name / alias / list / repeat / Release / pickle round trip). TLC enumerates description families (contents, layouts over 1..3 merged parts with and without alias sections and extra keys, duplicates) x histories and checks the design; every behaviour is executed on the real DictDatabase and JsonDatabase (identity via weak references, Release = del + gc.collect(), deep comparison of the source dicts) and TLC judges ExamplesExact, AliasIsConcat, ListIsConcat, SourceUntouched, SharedWhileAlive, DuplicatesRejected, MergeTotal, PickledAgrees on the real observations.',
+   text='Database.tla transcribes _merge_database_dicts, get_examples (alias union, overlap assert, augmentation on copies), _get_dataset (list recursion, weak memo), the alias property and JsonDatabase pickling, next to a statement-level reference; state machine over request histories (name / alias / list / repeat / Release / pickle round trip). TLC enumerates description families (contents, layouts over 1..3 merged parts with and without alias sections and extra keys, duplicates) x histories and checks the design; every behaviour is executed on the real DictDatabase and JsonDatabase (identity via weak references, Release = del + gc.collect(), deep comparison of the source dicts) and TLC judges ExamplesExact, AliasIsConcat, ListIsConcat, SourceUntouched, SharedWhileAlive, DuplicatesRejected, MergeTotal, PickledAgrees on the real observations. Datasets of earlier databases stay alive while later histories run (cross-instance isolation).',
    note='A missing alias section is read as equivalent to an empty one (the alias property adds an empty section to the source dict). Empty datasets / unknown names / asserts on later parts are documented refusals, outside the statement.',
    tech='TLA+ model of the database layer, TLC enumeration + replay + trace validation'),
  'C09': dict(engine='cache', cat='model_checking', ref='DESIGN.md section 6 C09',
-   text='Isolation.tla: a heap model (objects with top-level and nested content, so deep and shallow copies differ) with stores holding BYTES or a REFERENCE exactly as each storage mode does (pickle, copy, wu, memory cache with pickle / copy warranty on first and later access, disk cache); histories of Access by index / key / slice / iteration / items / through a copy, MutateTop / MutateNested of any handed-out object, MutateOriginal. TLC enumerates all histories (quick <= 5 steps, 2 keys) and checks the design; each is replayed on real nested examples with deep in-place mutation, all read paths compared with the pristine snapshot and identities with `is`; TLC judges ReadsPristine and NoAlias on the real observations.',
+   text='Isolation.tla: a heap model (objects with top-level and nested content, so deep and shallow copies differ) with stores holding BYTES or a REFERENCE exactly as each storage mode does (pickle, copy, wu, memory cache with pickle / copy warranty on first and later access, disk cache); histories of Access by index / key / slice / iteration / items / through a copy, MutateTop / MutateNested of any handed-out object, MutateOriginal. TLC enumerates all histories (quick <= 5 steps, 2 keys) and checks the design; each is replayed on real nested examples with deep in-place mutation, all read paths compared with the pristine snapshot and identities with `is`; TLC judges ReadsPristine and NoAlias on the real observations. Example shapes: nested dict / list, tuple holding mutables, and numpy arrays written in place.',
    note='pickle round-trip fidelity is trusted. In copy mode the statement makes no promise about the ORIGINAL container (stored by reference): exempt after MutateOriginal.',
    tech='TLA+ heap/aliasing model, TLC BFS over histories + replay + trace validation'),
  'C10': dict(engine='cache', cat='model_checking', ref='DESIGN.md section 6 C10',
